@@ -19,8 +19,6 @@ occurs in the member of parameter k + 1 (each chosen point costs at most one pai
 the alternation).  Hence  "Av(B) contains only finitely many members of the family"
 <=> some b in B is contained in the member of parameter |b| + 1.
 """
-import itertools
-
 from . import core as S
 
 
